@@ -605,7 +605,7 @@ class C08:
         n = n_for(tier, 350, 8000)
         for k in range(n):
             # a valid request with known element lengths
-            line = rng.pick(gen.GOOD_METHODS[:8]) + b" " + rng.pick(gen.GOOD_TARGETS[:8]) + b" HTTP/1.1"
+            line = rng.pick(gen.GOOD_METHODS) + b" " + rng.pick(gen.GOOD_TARGETS[:8]) + b" HTTP/1.1"   # incl. multi-byte methods: limits count bytes
             fields = []
             for _ in range(rng.below(4)):
                 f = gen.gen_field(rng, good_p=1.0, fold_p=0.2)
@@ -650,6 +650,9 @@ class C08:
         xs = []
         for line_len in (1000, 4094, 4095, 4096, 4097, 8191, 8192):
             xs.append((b"GET /" + b"a" * (line_len - 14) + b" HTTP/1.1\r\nHost: a\r\n\r\n", 0))
+        for chars in (500, 900, 999, 1000):     # a method of multi-byte characters: far fewer characters than bytes
+            xs.append(("\u00c9".encode() * chars + b" / HTTP/1.1\r\nHost: a\r\n\r\n", 0))
+            xs.append((b"G" + "\U0001F600".encode() * (chars // 4) + b" / HTTP/1.1\r\nHost: a\r\n\r\n", 0))
         for zeros in (15, 19, 20, 21, 22, 23, 30):
             xs.append((b"POST / HTTP/1.1\r\nContent-Length: " + b"0" * zeros + b"13\r\n\r\n0123456789abc", 13))
         xs.append((b"POST / HTTP/1.1\r\n" + b"".join(b"H%d: v\r\n" % i for i in range(120)) + b"Content-Length: 3\r\n\r\nabc", 3))
@@ -702,6 +705,11 @@ class C08:
                 s0 = b"GET / HTTP/1.1\r\n" + hline + b"\r\n"
                 g.add("%s header-%d" % (tag, L), gen.req_op(tree, ov, spelling, [s0]), {"want": "complete" if L <= 1000 else "rejected", "what": "header line of %d bytes" % L})
                 g.add("%s header-%d cut" % (tag, L), gen.req_op(tree, ov, spelling, gen.cut(s0, [len(s0) - 3, len(s0) // 2])), {"want": "complete" if L <= 1000 else "rejected", "what": "header line of %d bytes (split delivery)" % L})
+            for nb in (998, 1000, 1001, 1002):      # request line of nb bytes holding fewer characters than bytes
+                meth = "\u00c9".encode() * ((nb - 11) // 2) + (b"" if (nb - 11) % 2 == 0 else b"X")
+                line = meth + b" / HTTP/1.1"
+                assert len(line) == nb
+                g.add("%s mbline-%d" % (tag, nb), gen.req_op(tree, ov, spelling, [line + b"\r\n\r\n"]), {"want": "complete" if nb <= 1000 else "rejected", "what": "request line of %d bytes (%d characters)" % (nb, len(line.decode()))})
             g.add("%s header-unterminated" % tag, gen.req_op(tree, ov, spelling, [b"GET / HTTP/1.1\r\nX: " + b"v" * 1200]), {"want": "rejected", "what": "unterminated header line of 1203 bytes"})
             g.add("%s line-unterminated" % tag, gen.req_op(tree, ov, spelling, [b"GET /" + b"v" * 1200]), {"want": "rejected", "what": "unterminated request line of 1205 bytes"})
             head = b"POST / HTTP/1.1\r\nContent-Length: "
@@ -817,6 +825,8 @@ class C09:
                     g.add("suffix", gen.req_op(tree, ov, cfg, [m + sfx]), {"sfx": sfx.hex()})
                     if rng.chance(1, 3):
                         g.add("suffix-cut", gen.req_op(tree, ov, cfg, gen.cut(m + sfx, [len(m), rng.randint(1, len(m))])), {"sfx": sfx.hex()})
+                    if rng.chance(1, 2):
+                        g.add("suffix-cut", gen.req_op(tree, ov, cfg, gen.cut(m + sfx, [rng.randint(max(1, len(m) - 12), len(m) - 1) if len(m) > 1 else 1])), {"sfx": sfx.hex()})
             else:
                 m, framing = build_valid_response(rng)
                 g = Group("p%d" % k, "resp-suffix", {"msg": m.hex(), "kind": "resp", "framing": framing})
@@ -826,6 +836,9 @@ class C09:
                     g.add("suffix", gen.resp_op(tree, ov, None, [m + sfx]), {"sfx": sfx.hex()})
                     if rng.chance(1, 3):
                         g.add("suffix-cut", gen.resp_op(tree, ov, None, gen.cut(m + sfx, [len(m), rng.randint(1, len(m))])), {"sfx": sfx.hex()})
+                    if rng.chance(1, 2):
+                        # the message arrives in two calls and the second also carries what follows it
+                        g.add("suffix-cut", gen.resp_op(tree, ov, None, gen.cut(m + sfx, [rng.randint(max(1, len(m) - 12), len(m) - 1) if len(m) > 1 else 1])), {"sfx": sfx.hex()})
             groups.append(g)
         # every status code under every framing, with bytes following the message
         for k, it in enumerate(extremes.status_sweep(tier, rng)):
@@ -1095,7 +1108,8 @@ def crash_oracle(group, res):
     return fails
 
 
-MULTIBYTE = ["é".encode(), "€".encode(), "\U0001F600".encode(), b"\xc3", b"\xe2\x82", b"\xf0\x9f\x98"]
+MULTIBYTE = ["é".encode(), "€".encode(), "\U0001F600".encode(), b"\xc3", b"\xe2\x82", b"\xf0\x9f\x98"] + \
+            [c.encode() for c in gen.UNICODE_LOOKALIKES]
 
 
 class C06:
@@ -1202,7 +1216,7 @@ class C06:
                 add("multibyte-long", gen.resp_op(tree, ov, None, [b"HTTP/1.1 200 OK\r\nTransfer-Encoding: chunked\r\n\r\n" + b"1;" + filler + b"\r\na\r\n0\r\n\r\n"]))
         ct = b"text/plain; charset=utf-8"
         for i in range(len(ct) + 1):
-            for mb in MULTIBYTE[:3]:
+            for mb in MULTIBYTE[:3] + MULTIBYTE[6:]:
                 v = ct[:i] + mb + ct[i:]
                 add("multibyte-content-type", "TEXT %s %s" % (gen.hdrs_field([(b"Content-Type", v)]), hx(b"ab\xc3\xa9")))
         # generate with every small line limit
